@@ -1,13 +1,19 @@
 package gen
 
 import (
+	"bytes"
 	"crypto"
+	"crypto/hmac"
 	"crypto/sha256"
 	"crypto/x509"
 	"crypto/x509/pkix"
+	"encoding/asn1"
+	"encoding/binary"
 	"encoding/pem"
 	"fmt"
+	"hash/adler32"
 	"hash/crc32"
+	"hash/crc64"
 	"math/big"
 	"time"
 )
@@ -47,6 +53,109 @@ func ForgeCRC32(data []byte, pos int, want uint32) {
 		data[pos+i] = byte(cur) ^ idxs[i]
 		cur = tab[idxs[i]] ^ (cur >> 8)
 	}
+}
+
+// ForgeLinear overwrites data[pos:pos+n] so that sum(data) == want, for any checksum that is affine over GF(2) in the
+// message bits (every CRC, whatever its polynomial, width and conditioning; XOR folds). It solves the linear system
+// made of the effect of each free bit. It reports whether a solution exists (n*8 >= the width of the sum is enough for
+// CRCs).
+func ForgeLinear(data []byte, pos, n int, sum func([]byte) uint64, want uint64) bool {
+	for i := 0; i < n; i++ {
+		data[pos+i] = 0
+	}
+	base := sum(data)
+	nb := n * 8
+	cols := make([]uint64, nb)
+	for j := 0; j < nb; j++ {
+		data[pos+j/8] ^= 1 << uint(j%8)
+		cols[j] = sum(data) ^ base
+		data[pos+j/8] ^= 1 << uint(j%8)
+	}
+	// Gaussian elimination: find a subset of columns whose XOR equals want ^ base
+	target := want ^ base
+	type row struct {
+		v    uint64
+		comb []uint64 // which columns make up v (bit set)
+	}
+	words := (nb + 63) / 64
+	var basis [64]*row
+	for j := 0; j < nb; j++ {
+		r := &row{v: cols[j], comb: make([]uint64, words)}
+		r.comb[j/64] |= 1 << uint(j%64)
+		for b := 63; b >= 0 && r.v != 0; b-- {
+			if r.v>>uint(b)&1 == 0 {
+				continue
+			}
+			if basis[b] == nil {
+				basis[b] = r
+				break
+			}
+			r.v ^= basis[b].v
+			for k := range r.comb {
+				r.comb[k] ^= basis[b].comb[k]
+			}
+		}
+	}
+	sel := make([]uint64, words)
+	for b := 63; b >= 0; b-- {
+		if target>>uint(b)&1 == 0 {
+			continue
+		}
+		if basis[b] == nil {
+			return false
+		}
+		target ^= basis[b].v
+		for k := range sel {
+			sel[k] ^= basis[b].comb[k]
+		}
+	}
+	for j := 0; j < nb; j++ {
+		if sel[j/64]>>uint(j%64)&1 == 1 {
+			data[pos+j/8] ^= 1 << uint(j%8)
+		}
+	}
+	return sum(data) == want
+}
+
+// ChecksumTwins lists cheap checksums a cache might key its entries with; Twin(a, b, pos) makes b (same length as a,
+// 8 free bytes at pos) collide with a under the checksum and reports whether it managed to.
+var ChecksumTwins = []struct {
+	Name string
+	Twin func(a, b []byte, pos int) bool
+}{
+	{"crc32-ieee", func(a, b []byte, pos int) bool {
+		return ForgeLinear(b, pos, 4, func(d []byte) uint64 { return uint64(crc32.ChecksumIEEE(d)) }, uint64(crc32.ChecksumIEEE(a)))
+	}},
+	{"crc32-castagnoli", func(a, b []byte, pos int) bool {
+		tab := crc32.MakeTable(crc32.Castagnoli)
+		return ForgeLinear(b, pos, 4, func(d []byte) uint64 { return uint64(crc32.Checksum(d, tab)) }, uint64(crc32.Checksum(a, tab)))
+	}},
+	{"crc32-koopman", func(a, b []byte, pos int) bool {
+		tab := crc32.MakeTable(crc32.Koopman)
+		return ForgeLinear(b, pos, 4, func(d []byte) uint64 { return uint64(crc32.Checksum(d, tab)) }, uint64(crc32.Checksum(a, tab)))
+	}},
+	{"crc64-iso", func(a, b []byte, pos int) bool {
+		tab := crc64.MakeTable(crc64.ISO)
+		return ForgeLinear(b, pos, 8, func(d []byte) uint64 { return crc64.Checksum(d, tab) }, crc64.Checksum(a, tab))
+	}},
+	{"crc64-ecma", func(a, b []byte, pos int) bool {
+		tab := crc64.MakeTable(crc64.ECMA)
+		return ForgeLinear(b, pos, 8, func(d []byte) uint64 { return crc64.Checksum(d, tab) }, crc64.Checksum(a, tab))
+	}},
+	{"adler32-and-byte-sums", func(a, b []byte, pos int) bool {
+		// b := a with +1, -2, +1 on three neighbouring bytes: the byte sum and the position-weighted sum (Adler-32,
+		// Fletcher) are those of a
+		copy(b, a)
+		for i := pos; i+2 < len(b) && i < pos+64; i++ {
+			if b[i] < 255 && b[i+1] >= 2 && b[i+2] < 255 {
+				b[i]++
+				b[i+1] -= 2
+				b[i+2]++
+				return adler32.Checksum(a) == adler32.Checksum(b)
+			}
+		}
+		return false
+	}},
 }
 
 // ---------------------------------------------------------------------------
@@ -143,6 +252,58 @@ func splitTLVs(content []byte) ([][]byte, error) {
 		content = rest
 	}
 	return out, nil
+}
+
+// ResignEndingWith re-signs a signed DER document (certificate or CRL: SEQUENCE { tbs, algorithm, BIT STRING }) with
+// key so that the signature - and so the whole document - ENDS in the given bytes (a line break, a blank, a NUL, "==":
+// the last bytes of an ECDSA signature are the low bytes of s, which are as good as random). It tries other nonces
+// until one fits; two bytes take some 65000 tries (about a second).
+func ResignEndingWith(der []byte, key *Key, suffix []byte, maxTries int) ([]byte, bool) {
+	outer, rest, err := readTLV(der)
+	if err != nil || len(rest) != 0 {
+		return nil, false
+	}
+	parts, err := splitTLVs(outer.content)
+	if err != nil || len(parts) != 3 {
+		return nil, false
+	}
+	digest := sha256.Sum256(parts[0])
+	z := new(big.Int).SetBytes(digest[:])
+	for ctr := uint32(0); int(ctr) < maxTries; ctr++ {
+		m := hmac.New(sha256.New, key.D.Bytes())
+		m.Write(digest[:])
+		m.Write([]byte("ending-with"))
+		var c [4]byte
+		binary.BigEndian.PutUint32(c[:], ctr)
+		m.Write(c[:])
+		k := new(big.Int).SetBytes(m.Sum(nil))
+		k.Mod(k, p256N)
+		if k.Sign() == 0 {
+			continue
+		}
+		rx, _ := p256.ScalarBaseMult(k.Bytes())
+		r := new(big.Int).Mod(rx, p256N)
+		if r.Sign() == 0 {
+			continue
+		}
+		sv := new(big.Int).Mul(r, key.D)
+		sv.Add(sv, z)
+		sv.Mul(sv, new(big.Int).ModInverse(k, p256N))
+		sv.Mod(sv, p256N)
+		if sv.Sign() == 0 {
+			continue
+		}
+		sb := sv.Bytes()
+		if len(sb) < len(suffix) || !bytes.HasSuffix(sb, suffix) {
+			continue
+		}
+		sig, err := asn1.Marshal(struct{ R, S *big.Int }{r, sv})
+		if err != nil {
+			return nil, false
+		}
+		return Seq(&Node{Raw: parts[0]}, &Node{Raw: parts[1]}, &Node{Tag: 0x03, Content: append([]byte{0}, sig...)}).Encode(), true
+	}
+	return nil, false
 }
 
 // RebuildCert re-encodes a certificate after edit has changed the elements of its TBSCertificate (kids: [0] version,
